@@ -76,7 +76,7 @@ func main() {
 		byClass[o.Class] = c
 		if !o.Held() || *showAll {
 			fmt.Printf("%-7s %-8s %.2fs %s\n", o.Result.Status, o.Result.Solver, o.Result.Seconds, o.ID)
-			if !o.Held() && *dump != "" {
+			if (!o.Held() || *showAll) && *dump != "" {
 				fmt.Println("   query:", vc.SaveQuery(*dump, o))
 			}
 		}
